@@ -21,8 +21,10 @@ import (
 	"encoding/json"
 	"flag"
 	"fmt"
+	"io"
 	"math/rand"
 	"os"
+	"os/exec"
 	"runtime"
 	"strconv"
 	"strings"
@@ -404,7 +406,82 @@ func checkLog(log []hookEv) *verdict {
 	return nil
 }
 
-func cmdSchedules(path string, stride int, seed int64) {
+// cmdSchedulesSupervised runs the schedules in child processes: a bug in the client can crash the whole
+// process (a panic in a goroutine of the library cannot be recovered here); the parent turns "child died
+// while re-enacting schedule k" into an observation and goes on after k.
+func cmdSchedulesSupervised(path string, stride int, seed int64) {
+	out := vh.NewOut()
+	defer out.Flush()
+	from, crashes := 0, 0
+	total := map[string]float64{}
+	var samples interface{}
+	for {
+		cmd := exec.Command(os.Args[0], "schedules-child", path, "-stride", fmt.Sprint(stride), "-seed", fmt.Sprint(seed), "-from", fmt.Sprint(from))
+		var stderr bytes.Buffer
+		cmd.Stderr = io.MultiWriter(&stderr, os.Stderr)
+		pipe, _ := cmd.StdoutPipe()
+		if err := cmd.Start(); err != nil {
+			out.Summary(map[string]interface{}{"infra_error": err.Error()})
+			return
+		}
+		sc := bufio.NewScanner(pipe)
+		sc.Buffer(make([]byte, 1<<20), 1<<26)
+		at, done := from-1, false
+		var atSched json.RawMessage
+		for sc.Scan() {
+			var rec map[string]json.RawMessage
+			if json.Unmarshal(sc.Bytes(), &rec) != nil {
+				continue
+			}
+			var kind string
+			json.Unmarshal(rec["kind"], &kind)
+			switch kind {
+			case "progress":
+				json.Unmarshal(rec["at"], &at)
+				atSched = rec["sched"]
+			case "summary":
+				done = true
+				for _, k := range []string{"behaviours", "generated", "steps", "nontrivial"} {
+					var v float64
+					json.Unmarshal(rec[k], &v)
+					if k == "generated" {
+						total[k] = v
+					} else {
+						total[k] += v
+					}
+				}
+				if samples == nil {
+					var sm interface{}
+					json.Unmarshal(rec["samples"], &sm)
+					samples = sm
+				}
+			default:
+				os.Stdout.Write(append(append([]byte{}, sc.Bytes()...), '\n'))
+			}
+		}
+		cmd.Wait()
+		if done {
+			break
+		}
+		crashes++
+		first := stderr.String()
+		if i := strings.Index(first, "goroutine "); i > 0 {
+			first = first[:i]
+		}
+		var sched interface{}
+		json.Unmarshal(atSched, &sched)
+		out.Mismatch("process-crash", fmt.Sprintf("the process died while re-enacting schedule #%d: %.300s", at, strings.TrimSpace(first)), sched)
+		out.Flush()
+		if crashes >= 5 {
+			break
+		}
+		from = at + 1
+	}
+	out.Summary(map[string]interface{}{"behaviours": total["behaviours"], "generated": total["generated"], "steps": total["steps"],
+		"nontrivial": total["nontrivial"], "samples": samples, "crashes": crashes})
+}
+
+func cmdSchedules(path string, stride int, seed int64, from int) {
 	out := vh.NewOut()
 	defer out.Flush()
 	rng := rand.New(rand.NewSource(seed))
@@ -416,10 +493,15 @@ func cmdSchedules(path string, stride int, seed int64) {
 		if stride > 1 && rng.Intn(stride) != 0 {
 			return nil
 		}
+		if n-1 < from {
+			return nil
+		}
 		var sched []schedEv
 		if err := json.Unmarshal(b, &sched); err != nil {
 			return err
 		}
+		out.Emit(map[string]interface{}{"kind": "progress", "at": n - 1, "sched": sched})
+		out.Flush()
 		run++
 		lose := false
 		for _, e := range sched {
@@ -600,10 +682,13 @@ func main() {
 	seed := fs.Int64("seed", 1, "")
 	stride := fs.Int("stride", 1, "")
 	rounds := fs.Int("rounds", 200, "")
+	from := fs.Int("from", 0, "")
 	fs.Parse(os.Args[3:])
 	switch os.Args[1] {
 	case "schedules":
-		cmdSchedules(os.Args[2], *stride, *seed)
+		cmdSchedulesSupervised(os.Args[2], *stride, *seed)
+	case "schedules-child":
+		cmdSchedules(os.Args[2], *stride, *seed, *from)
 	case "stress":
 		cmdStress(os.Args[2], *seed, *rounds)
 	}
